@@ -314,6 +314,51 @@ pub fn run_step(ws: &Ws, step: &Value) -> Value {
                 Err(e) => json!({"result": "harness_error", "msg": format!("materialise: {e}")}),
             }
         }
+        "mkraw" => {
+            // entries whose names are raw bytes (given in hex: not necessarily UTF-8) in an existing directory of the workspace
+            use std::os::unix::ffi::OsStringExt;
+            let dir = p("dir");
+            let r: std::io::Result<()> = (|| {
+                std::fs::create_dir_all(&dir)?;
+                for n in step.get("names_hex").and_then(Value::as_array).cloned().unwrap_or_default() {
+                    let bytes = hex::decode(n.as_str().unwrap_or("")).unwrap_or_default();
+                    let name = std::ffi::OsString::from_vec(bytes);
+                    std::fs::write(dir.join(name), b"raw")?;
+                }
+                Ok(())
+            })();
+            match r {
+                Ok(()) => json!({"result": "ok"}),
+                Err(e) => json!({"result": "harness_error", "msg": format!("{e}")}),
+            }
+        }
+        "mkfiles" => {
+            // many larger files with pseudo-random contents, too big to travel as JSON: count files of size bytes each
+            let dir = p("dir");
+            let count = step.get("count").and_then(Value::as_u64).unwrap_or(1);
+            let size = step.get("size").and_then(Value::as_u64).unwrap_or(1) as usize;
+            let mut x = step.get("seed").and_then(Value::as_u64).unwrap_or(1).wrapping_mul(0x9E3779B97F4A7C15) | 1;
+            let r: std::io::Result<()> = (|| {
+                std::fs::create_dir_all(&dir)?;
+                for i in 0..count {
+                    let mut buf = vec![0u8; size];
+                    for chunk in buf.chunks_mut(8) {
+                        x ^= x << 13;
+                        x ^= x >> 7;
+                        x ^= x << 17;
+                        let b = x.to_le_bytes();
+                        let n = chunk.len();
+                        chunk.copy_from_slice(&b[..n]);
+                    }
+                    std::fs::write(dir.join(format!("big{i:03}")), &buf)?;
+                }
+                Ok(())
+            })();
+            match r {
+                Ok(()) => json!({"result": "ok"}),
+                Err(e) => json!({"result": "harness_error", "msg": format!("{e}")}),
+            }
+        }
         "sleep" => {
             std::thread::sleep(std::time::Duration::from_millis(step.get("ms").and_then(Value::as_u64).unwrap_or(0)));
             json!({"result": "ok"})
